@@ -256,6 +256,9 @@ func (t *regexTree) match(segment string, params Params) bool {
 	}
 
 	for i, bind := range t.binds {
+		if bind == "" {
+			continue // A capturing group of the user's expression, not a bind parameter.
+		}
 		params[bind] = submatches[i+1]
 	}
 	return true
